@@ -23,9 +23,16 @@ impl Inc {
             JsVariant::Integer32(number) if number < i32::MAX => {
                 (JsValue::from(number), JsValue::from(number + 1))
             }
-            _ => match value.to_numeric(context)? {
-                Numeric::Number(number) => (JsValue::from(number), JsValue::from(number + 1f64)),
-                Numeric::BigInt(bigint) => (
+            _ => match value.to_numeric(context) {
+                Err(err) => {
+                    // `src` may be the register of a local variable: it keeps its value.
+                    context.vm.set_register(src.into(), value);
+                    return Err(err);
+                }
+                Ok(Numeric::Number(number)) => {
+                    (JsValue::from(number), JsValue::from(number + 1f64))
+                }
+                Ok(Numeric::BigInt(bigint)) => (
                     JsValue::from(bigint.clone()),
                     JsValue::from(JsBigInt::add(&bigint, &JsBigInt::one())),
                 ),
